@@ -18,7 +18,7 @@ bin=$tmp/sim.test; fail=0; n=0
 for p in $props; do
  for seed in $(seq 1 $nseeds); do
   for mp in 1 4 16; do for rep in a b; do
-   ( GOMAXPROCS=$mp VERIF_MODE=shard VERIF_PROP=$p VERIF_TIER=thorough VERIF_CASES=$cases VERIF_SEED=$seed VERIF_SHARD=0/1 VERIF_BUDGET_S=120 VERIF_OUT=$tmp/o.$p.$seed.$mp.$rep $bin -test.run '^TestSim$' -test.timeout 0 >/dev/null 2>&1
+   ( GOMAXPROCS=$mp VERIF_MODE=shard VERIF_PROP=$p VERIF_TIER=thorough VERIF_CASES=$cases VERIF_SEED=$seed VERIF_SHARD=0/1 VERIF_BUDGET_S=3000 VERIF_OUT=$tmp/o.$p.$seed.$mp.$rep $bin -test.run '^TestSim$' -test.timeout 0 >/dev/null 2>&1
      python3 -c "
 import json,sys,hashlib
 j=json.load(open('$tmp/o.$p.$seed.$mp.$rep')); j.pop('wall_s',None)
